@@ -685,6 +685,10 @@ class C06(Prop):
       for k in ('eq', 'ne', 'lt', 'gt'):
         if a[k] != b[k]:
           return '%s: impl=%s model=%s' % (k, a[k], b[k])
+    # the literal transcription of base.lt (keys sorted when the dict branch is reached; proved equal
+    # to symLt on well-formed values: C06_lt_direct) must agree with pg.lt as well
+    if model_out.get('lt_direct') != a['lt']:
+      return 'lt (literal transcription ltDirect): impl=%s model=%s' % (a['lt'], model_out.get('lt_direct'))
     for i, (h, t) in enumerate(zip(impl_out['hash'], model_out['hash'])):
       if isinstance(t, str) or isinstance(h, str):
         if t != h:
